@@ -1,4 +1,5 @@
 import MJ.Model.Fold
+import MJ.Gen.Tables
 /-!
 # A concrete instance of the shared value operations (for the C04 driver)
 
@@ -703,6 +704,9 @@ def slice (v start stop step : V) : Except Err V :=
   let bound (x : V) : Except Err (Option Int) :=
     match x with
     | .none => .ok none
+    -- `slice_bound`: integers beyond the `i64` range are clamped like Python does
+    | .int n => .ok (some (if n < -9223372036854775808 then -9223372036854775808
+                           else if n > 9223372036854775807 then 9223372036854775807 else n))
     | x => match asI64 x with
       | some i => .ok (some i)
       | none => .error .invalidOperation
@@ -854,6 +858,9 @@ def prims : Prims where
   callKw := callKw
   filter := filter
   test := test
+  -- the traversal tables regenerated from compiler/ast.rs and compiler/codegen.rs
+  foldsVariant := fun v => MJ.Gen.asConstArms.contains v
+  codegenSpecial := fun s => MJ.Gen.codegenSpecials.contains s
 
 /-! ### which primitive applications are transcribed faithfully -/
 
